@@ -62,9 +62,17 @@ class SysHandler(object):
 
     def quit(self):
         # We need to transfer the control to the loop's thread
-        self.controller.loop.add_callback_from_signal(
-            self.controller.dispatch, (None, make_json("quit"))
-        )
+        self.controller.loop.add_callback_from_signal(self._quit)
+
+    def _quit(self):
+        arbiter = self.controller.arbiter
+        if (arbiter._exclusive_running_command is not None and
+                not arbiter._stopping):
+            # an exclusive command is running: the quit would be refused
+            # as conflicting and the signal lost, so try again a bit later
+            self.controller.loop.call_later(0.1, self._quit)
+            return
+        self.controller.dispatch((None, make_json("quit")))
 
     def reload(self):
         # We need to transfer the control to the loop's thread
